@@ -1,6 +1,7 @@
 ---------------------------- MODULE Trace_Murmur3 ----------------------------
 (* Judge for C03 records:                                                     *)
 (*  kind "hash":  data, chunks (list of chunk lengths fed to write()), token  *)
+(*  kind "cdchash": data, token of the CDC partitioner's hasher               *)
 (*  kind "pk":    markers, pkidx (marker index of each key component, in key  *)
 (*                order), values (bytes per marker), encoded, token, cdc,     *)
 (*                token_cached (token through the CachingSession handle)      *)
@@ -10,6 +11,7 @@ VARIABLE l
 TraceInit == l = 1 /\ TLCSet(1, 1)
 Good(c) ==
   IF c.kind = "hash" THEN c.token = Token(c.data)
+  ELSE IF c.kind = "cdchash" THEN c.token = CdcToken(c.data)     \* the CDC hasher, whatever the chunking
   ELSE IF c.kind = "pk" THEN
        LET comps == [i \in 1..Len(c.pkidx) |-> c.values[c.pkidx[i] + 1]]
            enc == EncodePk(comps) IN
